@@ -713,13 +713,13 @@ class OptCont:
 
     def step(self, ex, st, rv):
         k = self.kind
-        if k in ('is_some_and', 'and_then', 'unwrap_or_else', 'map_or', 'map_or_else', 'is_none_or'): return rv
+        if k in ('is_some_and', 'and_then', 'unwrap_or_else', 'map_or', 'map_or_else', 'is_none_or', 'or_else'): return rv
         if k == 'map': return some(rv)
         if k == 'ok_or_else': return Enum('Result', BitVecVal(1, 64), {'Ok': [Opaque('ok')], 'Err': [rv]})
         raise Unsupported('Option::' + k)
 
 
-@h(r'^(?:std::option::|core::option::)?Option::<.*>::(is_some_and|is_none_or|map|and_then|unwrap_or_else|map_or|filter|ok_or_else)::<.*>$')
+@h(r'^(?:std::option::|core::option::)?Option::<.*>::(is_some_and|is_none_or|map|and_then|unwrap_or_else|or_else|map_or|filter|ok_or_else)::<.*>$')
 def opt_comb(ex, st, callee, args):
     """Option::{is_some_and, is_none_or, map, and_then, unwrap_or_else, map_or, filter}: the closure body is executed from MIR"""
     kind = re.search(r'>::(\w+)::<', callee).group(1)
@@ -731,6 +731,7 @@ def opt_comb(ex, st, callee, args):
         oo = a[0]; pay = oo.fields['Some'][0]
         if kind in ('is_some_and', 'is_none_or', 'map', 'and_then'): return call_closure(ex, a[1], [pay], cont=OptCont(kind), st=st)
         if kind == 'unwrap_or_else': return pay
+        if kind == 'or_else': return oo
         if kind == 'ok_or_else': return Enum('Result', BitVecVal(0, 64), {'Ok': [pay], 'Err': [Opaque('err')]})
         if kind == 'map_or': return call_closure(ex, a[2], [pay], cont=OptCont(kind), st=st)
         if kind == 'filter':
@@ -743,7 +744,7 @@ def opt_comb(ex, st, callee, args):
         if kind == 'is_some_and': return BoolVal(False)
         if kind == 'is_none_or': return BoolVal(True)
         if kind in ('map', 'and_then', 'filter'): return none()
-        if kind in ('unwrap_or_else', 'ok_or_else'): return call_closure(ex, a[1], [], cont=OptCont(kind), st=st)
+        if kind in ('unwrap_or_else', 'ok_or_else', 'or_else'): return call_closure(ex, a[1], [], cont=OptCont(kind), st=st)
         if kind == 'map_or': return a[1]
         raise Unsupported(kind)
     c = simp(is_some)
